@@ -560,7 +560,9 @@ class Polygon(Shape2D):
             (np.sum(points[:-1] * points[:-1], axis=1) / 2, [0])
         )
         x, resids, _, _ = np.linalg.lstsq(points, half_point_lengths, None)
-        if len(self.vertices) > 3 and not np.isclose(resids, 0):
+        # The residual has units of length^4; compare it to the radius so that the
+        # test does not depend on the size of the polygon.
+        if len(self.vertices) > 3 and not np.isclose(resids / np.dot(x, x) ** 2, 0):
             raise RuntimeError("No circumcircle for this polygon.")
 
         return Circle(np.linalg.norm(x), x + self.vertices[0])
@@ -603,6 +605,9 @@ class Polygon(Shape2D):
             self.normal,
         )
         outward_normals /= np.linalg.norm(outward_normals, axis=-1)[:, np.newaxis]
+        # The cross product above points outward only for vertices ordered
+        # counterclockwise about the normal.
+        outward_normals *= np.sign(self.signed_area)
 
         # vstack the row corresponding to the constraint equation
         a = np.vstack(
@@ -624,7 +629,10 @@ class Polygon(Shape2D):
         )
 
         x, resids, _, _ = np.linalg.lstsq(a, b, None)
-        if len(self.vertices) > 4 and not np.isclose(resids, 0):
+        # A triangle always has an incircle; from four edges on the system is
+        # overdetermined. The residual has units of length^2; compare it to the
+        # radius so that the test does not depend on the size of the polygon.
+        if len(self.vertices) > 3 and not np.isclose(resids / x[3] ** 2, 0):
             raise RuntimeError("No incircle for this polygon.")
 
         return Circle(x[3], x[:3])
